@@ -174,7 +174,7 @@ def scenarios(ctx):
         out.append(Std('pub-v%d-heldback' % v, profile='pub', closing=False,
                        init=(('connect', 0, False, 0, v), ('connack', 0, 0, False)), connects=[(False, 0, v)],
                        reconnects=[(False, 0, v)], pub_qos=(1, 2), windows=(1, 2, 3), pub_retain=(True,), bandwidths=((1, 1), (100000, 4)),
-                       budgets=dict(pub=3, ack=1 if q else 2, misack=1, setbw=1, tick=2 if q else 3, setwin=1 if q else 2, lose=0 if q else 1,
+                       budgets=dict(pub=3, ack=1, misack=1, setbw=1, tick=2 if q else 3, setwin=1, lose=0 if q else 1,
                                     rebuild=0 if q else 1, connect=0 if q else 1, connack=0 if q else 1)))
     out.append(Std('two-addresses', profile='pubsub', naddr=2, closing=False, pub_qos=(1, 2),
                    init=(('connect', 0, True, 0, 4), ('connack', 0, 0, False), ('connect', 1, False, 0, 3), ('connack', 1, 0, False)),
